@@ -228,6 +228,7 @@ type vsPeer struct {
 	// offer that was never applied when the last remote offer arrived
 	applied map[string]bool
 	stale   bool
+	prefSet map[*RTPTransceiver]string // the application called SetCodecPreferences on it: "with-prefs" (payload types given) | "with-prefs-nopt"
 }
 
 func (p *vsPeer) noteStale() {
@@ -365,9 +366,13 @@ func vsClassify(p *vsPeer, answer, offer vkM) {
 	}
 	age := map[string]string{}
 	for tr, id := range p.trIDs {
-		if id <= p.preIDs {
+		prefs := p.prefSet[tr]
+		switch {
+		case prefs != "": // the application set codec preferences (with or without payload types of its own numbering)
+			age[tr.Mid()] = prefs
+		case id <= p.preIDs:
 			age[tr.Mid()] = "pre-existing"
-		} else {
+		default:
 			age[tr.Mid()] = "from-offer"
 		}
 	}
@@ -495,7 +500,17 @@ func (r *vsRun) step(st vsStep) {
 					prefs = append(prefs, c)
 				}
 			}
-			_ = trs[st.N].SetCodecPreferences(prefs)
+			if trs[st.N].SetCodecPreferences(prefs) == nil && len(prefs) > 0 {
+				if p.prefSet == nil {
+					p.prefSet = map[*RTPTransceiver]string{}
+				}
+				p.prefSet[trs[st.N]] = "with-prefs-nopt"
+				for _, c := range prefs {
+					if c.PayloadType != 0 {
+						p.prefSet[trs[st.N]] = "with-prefs"
+					}
+				}
+			}
 		}
 		desc = "setPrefs:" + strings.Join(st.Prefs, ",")
 	case "presetMid": // the application numbers a fresh transceiver itself, with a mid nothing carries yet
@@ -596,8 +611,13 @@ var vsPrefTable = map[string]RTPCodecParameters{ //nolint:gochecknoglobals
 	"h264": {RTPCodecCapability: RTPCodecCapability{MimeType: MimeTypeH264, ClockRate: 90000,
 		SDPFmtpLine: "level-asymmetry-allowed=1;packetization-mode=1;profile-level-id=42001f"}, PayloadType: 102},
 	"rtx-h264": {RTPCodecCapability: RTPCodecCapability{MimeType: MimeTypeRTX, ClockRate: 90000, SDPFmtpLine: "apt=102"}, PayloadType: 103},
-	"opus":     {RTPCodecCapability: RTPCodecCapability{MimeType: MimeTypeOpus, ClockRate: 48000, Channels: 2, SDPFmtpLine: "minptime=10;useinbandfec=1"}, PayloadType: 111},
-	"pcmu":     {RTPCodecCapability: RTPCodecCapability{MimeType: MimeTypePCMU, ClockRate: 8000}, PayloadType: 0},
+	// capabilities only, as returned by RTPSender/Receiver capabilities: no payload type
+	"vp8-nopt": {RTPCodecCapability: RTPCodecCapability{MimeType: MimeTypeVP8, ClockRate: 90000}},
+	"h264-nopt": {RTPCodecCapability: RTPCodecCapability{MimeType: MimeTypeH264, ClockRate: 90000,
+		SDPFmtpLine: "level-asymmetry-allowed=1;packetization-mode=1;profile-level-id=42001f"}},
+	"opus-nopt": {RTPCodecCapability: RTPCodecCapability{MimeType: MimeTypeOpus, ClockRate: 48000, Channels: 2, SDPFmtpLine: "minptime=10;useinbandfec=1"}},
+	"opus":      {RTPCodecCapability: RTPCodecCapability{MimeType: MimeTypeOpus, ClockRate: 48000, Channels: 2, SDPFmtpLine: "minptime=10;useinbandfec=1"}, PayloadType: 111},
+	"pcmu":      {RTPCodecCapability: RTPCodecCapability{MimeType: MimeTypePCMU, ClockRate: 8000}, PayloadType: 0},
 }
 
 const vsFp = "sha-256 0F:74:31:25:CB:A2:13:EC:28:6F:6D:2C:61:FF:5D:C2:BC:B9:DB:3D:98:14:8D:1A:BB:EA:33:0C:A4:60:A8:8E"
